@@ -17,6 +17,33 @@ CHECKS = {
             'clang 14 AST/CFG of the instantiated templates; rule code in checks/C05*.py; sufficiency of one border '
             'per visit and counter wrap are not decided',
             'DESIGN.md section 5, C05'),
+ 'C03': ('guard-dominance dataflow over (key, endpoint) pairs with call-site requirement summaries; validation '
+         'typestate; finite abstract execution of check_empty_scan_range against the documented table',
+         'Decides on every CFG path of the scan family that the key of an INF endpoint is never used (R-INF), that '
+         'argument validation precedes every tree access and rejects with ERR_BAD_USAGE (R-VAL), that the range '
+         'decision table equals the documented one over all 45 abstract rows (R-TAB, exhaustive), and that the '
+         'name-based overload resolves the storage first (R-STG). It does not decide that the returned set equals '
+         'the interval.',
+         'clang 14 AST/CFG; (string_view, scan_endpoint) pairs recognised by parameter adjacency; interval contents '
+         'are runtime data and undecided',
+         'DESIGN.md section 5, C03'),
+ 'C13': ('typestate over the storage lookup result; who-may-reference rule over the call graph; call-site argument rules',
+         'Decides that every name-based data API resolves the storage with its own name before any tree access, '
+         'maps a miss to WARN_STORAGE_NOT_EXIST without touching the tree pointer and forwards exactly the resolved '
+         'tree (R-STG); that only the storage module references the catalogue and nothing reachable from per-tree '
+         'operations does (R-ISO); and the unique-insert / checked-delete / full-enumeration shape of the DDL '
+         'functions (R-UNQ). Map semantics over DDL sequences and concurrent DDL are not decided.',
+         'clang 14 AST/CFG and resolved callees; concurrency of DDL inherits C01 and is undecided here',
+         'DESIGN.md section 5, C13'),
+ 'C16': ('interprocedural typestate (reset-before-start) with inlining, field write-set agreement, ordering typestate, '
+         'loop/flag cycle check',
+         'Decides that every stop flag a background thread tests and fin() raises is lowered on every path of init() '
+         'before that thread is constructed (R-RST), that session-table init resets every field enter/leave write '
+         '(R-TBL), that destroy() nulls every root it deletes (R-EMP), the order of fin() (R-FIN) and that every '
+         'unbounded loop of a background thread tests its stop flag (R-EXIT). It does not decide that the epoch '
+         'actually advances in later cycles (timing).',
+         'clang 14 AST/CFG; std::thread runs the function passed to it; timing undecided',
+         'DESIGN.md section 5, C16'),
 }
 
 NOT_APPLICABLE = {
